@@ -81,7 +81,8 @@ std::optional<ChunkRecord> ChunkStore::get_record(const ChunkId& id) {
     }
 
     if (std::chrono::steady_clock::now() >= it->second.expires_at) {
-        chunks_.erase(it);
+        // Leave removal to sweep_expired(): it wipes the persisted file and lets the
+        // node withdraw its announcement and report the expiry.
         return std::nullopt;
     }
 
